@@ -269,6 +269,23 @@ CHECKS['C09'] = dict(
     note='level other: premises proved (scans: no bound; quiescence: D/shape n=2 quick, more thorough), composition on paper, B stand-in.',
     technique='sidecar contracts + own VC generator with contract / loop-invariant cuts + z3 (quiescence); AST scans; bounded twin-run stand-in')
 
+CHECKS['C16'] = dict(
+    category='other',
+    text='The functions involved (reflection over dataclass fields, f-strings, str.split, structural pattern matching on word lists, tomllib) '
+         'are outside the subset of the VC generator, so no SMT obligation is claimed. What a contract on them can say is decided by exhaustive '
+         'closed evaluation of the real code over the finite part of its domain (label E): for every operation kind, every position 1..9, every '
+         'card / card pair of the 53-card alphabet, with and without commentary, the line written by HandHistory.from_game_state, parsed by '
+         'parse_action against a recording stand-in for State, invokes the same operation with the same player, amount and cards, and a line '
+         'naming the wrong player is refused; for each of the 11 PHH variants from_game_state(game, state).create_game() / create_state() has '
+         'the game-defining fields of the original (ante trimming flag, antes, blinds/straddles, bring-in, bets, starting stacks, streets, '
+         'structure). A structural scan shows that state_actions raises ValueError whenever actions are left unapplied. Text round trip '
+         '(dumps/loads/dumps, user-defined fields) and whole-hand replay are a bounded stand-in (label B), never counted.',
+    design_ref='DESIGN.md section 4 (C16), section 5, section 8',
+    note='level other. Amounts are a sample (int(str(k)) == k, parse_value(str(v)) == v assumed); the reflection loop does not branch on field '
+         'values (one run per variant with sentinel values); tomllib is an external library; the repair ladder is covered only by the stand-in.',
+    technique='exhaustive closed evaluation of the writer/parser pair and of game reconstruction (real code, finite domain) + AST scan; bounded '
+              'round-trip / replay stand-in')
+
 NOT_APPLICABLE = {
     'C20': 'regex-driven text importers against external site formats; no contract within reach expresses or decides it (DESIGN.md section 5)',
 }
